@@ -55,7 +55,7 @@ pub fn install_panic_hook() {
         } else {
             "<non-string panic>".to_string()
         };
-        LAST_PANIC.with(|p| *p.borrow_mut() = format!("{loc}: {msg}"));
+        LAST_PANIC.with(|p| *p.borrow_mut() = format!("{loc}: {}", msg.replace('\n', " ")));
     }));
 }
 
